@@ -33,7 +33,10 @@ def shards(tier, seed):
     return out
 
 
-def session(kind, shape, step, scb, bystander=False):
+CB_STYLES = ("method", "object", "lambda", "partial")
+
+
+def session(kind, shape, step, scb, bystander=False, cb_style="method"):
     info = {"close_step": None, "close_ret_step": None, "open_after_a_close_returned": []}
 
     async def scenario(sim):
@@ -130,7 +133,7 @@ def session(kind, shape, step, scb, bystander=False):
             if not c.lost and not c.closing:
                 c.feed(packet(kind, 230))
         await asyncio.sleep(40.0)
-    sim, stats = simgw.run_session(kind, scenario, status_cb=scb, recv_cb="slow" if shape == "slow_receive_cb" else "ok", bystander=bystander)
+    sim, stats = simgw.run_session(kind, scenario, status_cb=scb, recv_cb="slow" if shape == "slow_receive_cb" else "ok", bystander=bystander, cb_style=cb_style)
     return sim, stats, info
 
 
@@ -211,13 +214,15 @@ def run_shard(spec, acc):
         steps = steps[:40] + steps[40::4]
     for step in steps:
         by = step % 3 == 1          # every third session shares process and loop with an untouched second client
-        sim, stats, info = session(kind, shape, step, scb, bystander=by)
+        style = CB_STYLES[step % 4]          # the callbacks come in every shape an application may hand over
+        sim, stats, info = session(kind, shape, step, scb, bystander=by, cb_style=style)
+        acc.cover("callback_styles", style)
         res = check(sim, stats, info, acc, kind, shape, step, scb)
         if by and sim is not None and not stats["error"]:
             simgw.judge_bystander(sim, acc, {"client": kind, "shape": shape, "step": step, "status_cb": scb})
         if scb == "raise" and res is not None:
             # a raising status callback must not change what the client does
-            sim2, stats2, info2 = session(kind, shape, step, "ok", bystander=by)
+            sim2, stats2, info2 = session(kind, shape, step, "ok", bystander=by, cb_style=style)
             if not stats2["error"] and info2["close_step"] is not None:
                 res2 = {"status": sim2.status, "attempts": len(sim2.attempts), "received": len(sim2.received), "final": sim2.state_changes[-1][1]}
                 acc.count("raising_vs_benign_compared")
